@@ -72,6 +72,8 @@ mod imp {
         }
     }
 
+    static SAMPLES: std::sync::Mutex<Vec<Value>> = std::sync::Mutex::new(Vec::new());
+
     pub struct TableModel {
         pub cap: usize,
         pub keys: Vec<u64>,
@@ -173,7 +175,15 @@ mod imp {
                 (t.snapshot(), problem)
             });
             match r {
-                Ok((snap, problem)) => Some(St { hist, snap, problem }),
+                Ok((snap, problem)) => {
+                    if hist.len() >= 3 {
+                        let mut v = SAMPLES.lock().unwrap();
+                        if v.len() < 4 {
+                            v.push(json!({"capacity": self.cap, "history": ops_json(&hist), "queue": snap.0, "map": snap.1}));
+                        }
+                    }
+                    Some(St { hist, snap, problem })
+                }
                 Err(m) => Some(St { hist, snap: (vec![], vec![]), problem: Some(format!("panic: {}", m)) }),
             }
         }
@@ -247,7 +257,8 @@ mod imp {
         cov.set("stateright_bfs", json!(per_cap));
         cov.set("unrolled_histories_without_dedup", json!({"capacity": ucap, "depth": udepth, "histories": unrolled, "secs": t0.elapsed().as_secs_f64()}));
         cov.set("explanation", json!("reachable state space of the real table (deduplicated on its own queue+map contents) explored to fixpoint for each capacity with capacity+2 keys and 2 values; the table only compares keys for equality, so capacity+2 keys let 'present', 'evicted and re-inserted' and 'never seen' coexist"));
-        cov.samples = vec![json!({"capacity": 2, "history": ["put(0,0)", "put(1,0)", "put(0,1)", "put(2,0)", "get(0)"], "expected_last_result": null})];
+        cov.samples = SAMPLES.lock().unwrap().clone();
+        cov.samples.push(json!({"capacity": 2, "history": ["put(0,0)", "put(1,0)", "put(0,1)", "put(2,0)", "get(0)"], "expected_last_result": null}));
         cov.assumptions = vec!["stateright deduplicates on a 64-bit fingerprint of the state; with < 10^5 states a collision is negligible and would only hide states, never raise an alarm".into()];
         finish(&rep, tier, cov, started)
     }
